@@ -71,15 +71,21 @@ def rcGet (rc : List (Nat × Nat)) (c : Nat) : Nat := ((rc.find? (·.1 == c)).ma
 def rcSet (rc : List (Nat × Nat)) (c n : Nat) : List (Nat × Nat) :=
   (c, n) :: rc.filter (·.1 != c)
 
+/-- the `NodeData::Shared` value stored for expansion `e` of template `t` -/
+def sharedInfo (t : Bytes) (d cell : Nat) (e : Bytes × List Part) : Info :=
+  { template := t, expanded := some e.1, data := d, cell := some cell, depth := countSlash e.1, length := e.1.length }
+
+/-- the `NodeData::Inline` value of a template without optional groups -/
+def inlineInfo (t : Bytes) (d : Nat) (raw : Bytes) : Info :=
+  { template := t, data := d, depth := countSlash raw, length := raw.length }
+
 /-- insertion of the expansions of a multi-expansion template, all sharing cell `cell`. Overwriting a node's data,
 or finding a catch-all already present, drops one reference to the cell. Returns the root and the number of drops. -/
 def insertShared (t : Bytes) (d cell : Nat) : List (Bytes × List Part) → Node → Nat → Node × Nat
   | [], root, drops => (root, drops)
-  | (raw, parts) :: rest, root, drops =>
-    let info : Info := { template := t, expanded := some raw, data := d, cell := some cell,
-                         depth := countSlash raw, length := raw.length }
-    let dup := (Node.find root parts).isSome
-    insertShared t d cell rest (Node.insert root parts info) (if dup then drops + 1 else drops)
+  | e :: rest, root, drops =>
+    let dup := (Node.find root e.2).isSome
+    insertShared t d cell rest (Node.insert root e.2 (sharedInfo t d cell e)) (if dup then drops + 1 else drops)
 
 /-- templates of the live routes that collide with an expansion, in expansion order -/
 def conflictsOf (root : Node) (ts : List (Bytes × List Part)) : List Bytes :=
@@ -89,8 +95,7 @@ def conflictsOf (root : Node) (ts : List (Bytes × List Part)) : List Bytes :=
 def Router.insertOk (r : Router) (t : Bytes) (d : Nat) (ts : List (Bytes × List Part)) : Router :=
   match ts with
   | [(raw, parts)] =>
-    let info : Info := { template := t, data := d, depth := countSlash raw, length := raw.length }
-    { r with root := Node.optimize (Node.insert r.root parts info) }
+    { r with root := Node.optimize (Node.insert r.root parts (inlineInfo t d raw)) }
   | _ =>
     let res := insertShared t d r.next ts r.root 0
     { r with root := Node.optimize res.1, rc := rcSet r.rc r.next (ts.length - res.2), next := r.next + 1 }
